@@ -29,7 +29,7 @@ Definition own_sid (s : sess) : sid := mkSid (s_snd s) (s_tgt s).
 Definition logon_sid (m : msg) : sid := mkSid (lg_tci m) (lg_sci m).
 
 Lemma initiator_test_is_sid_ne : forall s m,
-  negb (beq (lg_tci m) (s_snd s)) && negb (beq (lg_sci m) (s_tgt s)) = sid_ne (own_sid s) (logon_sid m).
+  sid_neq (lg_tci m) (lg_sci m) (s_snd s) (s_tgt s) = sid_ne (own_sid s) (logon_sid m).
 Proof. reflexivity. Qed.
 
 Lemma send_next_send : forall sc now s ty body,
@@ -224,7 +224,7 @@ Proof.
 Qed.
 
 (* ---- initiator ---------------------------------------------------------------------------------------------- *)
-(* the test `id != _sid` and enforcement: both CompIDs of the response are wrong -> mismatch *)
+(* the test `id != _sid` and enforcement: the identity built from the response differs from the session's -> mismatch *)
 Theorem initiator_mismatch : forall raw s rest q m,
   find_after pat_34 raw = Some rest -> fast_atoi_u rest SOH 0 = Some q -> decode raw = DecOk m ->
   m_type m = mt_logon -> s_role s = Initiator -> s_state s <> st_continuous ->
@@ -246,7 +246,7 @@ Proof.
     match goal with |- context [if ?c then _ else _] => destruct c end; cbn; rewrite orb_true_r; reflexivity.
 Qed.
 
-(* in every other case a response with the expected number completes the logon -- whatever its CompIDs *)
+(* in every other case (mirrored CompIDs, or enforcement off) a response with the expected number completes the logon *)
 Theorem initiator_accepts : forall raw s rest q m,
   find_after pat_34 raw = Some rest -> fast_atoi_u rest SOH 0 = Some q -> decode raw = DecOk m ->
   m_type m = mt_logon -> s_role s = Initiator -> s_state s <> st_continuous ->
@@ -271,5 +271,34 @@ Proof.
   eexists. split; [reflexivity|].
   unfold update_persist_seqnums.
   match goal with |- context [if ?c then _ else _] => destruct c end; repeat split; reflexivity.
+Qed.
+
+(* full strength: under enforcement, a response whose CompIDs do not mirror the initiator's identity -- either one
+   wrong suffices -- is a mismatch *)
+Theorem initiator_not_mirrored : forall raw s rest q m,
+  find_after pat_34 raw = Some rest -> fast_atoi_u rest SOH 0 = Some q -> decode raw = DecOk m ->
+  m_type m = mt_logon -> s_role s = Initiator -> s_state s <> st_continuous ->
+  pr_ec (s_par s) = true -> (lg_tci m <> s_snd s \/ lg_sci m <> s_tgt s) ->
+  exists s', process sc decode fl now raw s = (false, s', []) /\
+             s_state s' = st_session_terminated /\ is_shutdown s' = true.
+Proof.
+  intros raw s rest q m F1 F2 D TY RO NC EC NM.
+  apply (initiator_mismatch raw s rest q m F1 F2 D TY RO NC EC).
+  apply sid_ne_char. unfold own_sid, logon_sid. intro E. inversion E. destruct NM as [N|N]; apply N; congruence.
+Qed.
+
+(* and the logon completes under enforcement ONLY for a mirrored response *)
+Theorem initiator_only : forall raw s rest q m b s' e,
+  find_after pat_34 raw = Some rest -> fast_atoi_u rest SOH 0 = Some q -> decode raw = DecOk m ->
+  m_type m = mt_logon -> s_role s = Initiator -> s_state s <> st_continuous -> pr_ec (s_par s) = true ->
+  process sc decode fl now raw s = (b, s', e) -> s_state s' = st_continuous ->
+  lg_tci m = s_snd s /\ lg_sci m = s_tgt s.
+Proof.
+  intros raw s rest q m b s' e F1 F2 D TY RO NC EC P ST.
+  destruct (sid_ne (own_sid s) (logon_sid m)) eqn:NE.
+  - destruct (initiator_mismatch raw s rest q m F1 F2 D TY RO NC EC NE) as [s2 [P2 [ST2 _]]].
+    rewrite P in P2. inversion P2; subst. rewrite ST in ST2. discriminate.
+  - rewrite sid_ne_negb_eq in NE. apply negb_false_iff in NE. apply sid_eq_char in NE.
+    unfold own_sid, logon_sid in NE. inversion NE. split; reflexivity.
 Qed.
 End Logon.
